@@ -38,6 +38,59 @@ def dict_items(d):
     return [(k.value, v) for k, v in zip(d.keys, d.values) if isinstance(k, ast.Constant)]
 
 
+def fold_wrapping_data_maps(ctx, keycls, getter, setter):
+    """(getter map path -> column, setter map column -> path) of Key.key_wrapping_data, by folding (pv/fold.py): the getter is run on a
+    model object whose every _kdw_* column holds a distinct token and the nested dictionary it returns is read off; the setter is run
+    on a nested dictionary of distinct tokens and the columns that received them are read off.  Helpers of the class (expanded in place),
+    loops over field tables (unrolled) and computed attribute names built from constants (folded) are all the same to this reading.
+    None when the property uses something the folder does not model."""
+    from ..fold import Folder, Unfoldable, Raised
+    from ..inline import flat
+    cols = []
+    for cls_ in [keycls]:
+        for st_ in cls_.body:
+            if isinstance(st_, ast.Assign) and isinstance(st_.targets[0], ast.Name) and st_.targets[0].id.startswith('_kdw_'):
+                cols.append(st_.targets[0].id)
+    if len(cols) < 10:
+        return None
+    g, st = flat(keycls, getter), flat(keycls, setter)
+    try:
+        selfv = {c: 'col:' + c for c in cols}
+        selfv['__attrs__'] = tuple(cols)
+        f = Folder(steps=50000)
+        got = f.call_method(g, selfv, [], {})
+        gmap = {}
+
+        def walk(d, path):
+            for k, v in d.items():
+                if isinstance(v, dict):
+                    walk(v, path + (k,))
+                elif isinstance(v, str) and v.startswith('col:'):
+                    gmap[path + (k,)] = v[4:]
+                else:
+                    raise Unfoldable('getter yields %r at %s' % (v, path + (k,)))
+        if not isinstance(got, dict):
+            return None
+        walk(got, ())
+        # the setter on a document shaped like what the getter returned, every leaf a distinct token
+        def tokens(d, path):
+            return {k: (tokens(v, path + (k,)) if isinstance(v, dict) else 'tok:' + '/'.join(path + (k,))) for k, v in d.items()}
+        doc = tokens(got, ())
+        selfs = {c: None for c in cols}
+        selfs['__attrs__'] = tuple(cols)
+        f2 = Folder(steps=50000)
+        f2.call_method(st, selfs, [doc], {})
+        smap = {}
+        for c in cols:
+            v = selfs.get(c)
+            if isinstance(v, str) and v.startswith('tok:'):
+                smap[c] = tuple(v[4:].split('/'))
+        return gmap, smap
+    except (Unfoldable, Raised) as ex:
+        ctx.note('C05.R2: Key.key_wrapping_data is not foldable (%s); reading its spelling instead' % ex)
+        return None
+
+
 def run(ctx):
     src = ctx.src
     m = EngineModel(src)
@@ -146,44 +199,48 @@ def run(ctx):
             else:
                 setter = f
     ctx.need(getter is not None and setter is not None, 'anchor vanished: Key.key_wrapping_data property')
-    # getter map: (section, key) -> column
-    gmap = {}
+    folded_maps = fold_wrapping_data_maps(ctx, keycls, getter, setter)
+    if folded_maps is not None:
+        gmap, smap = folded_maps
+    else:
+        # getter map: (section, key) -> column
+        gmap = {}
 
-    def walk_dict(d, section):
-        for k, v in dict_items(d):
-            if isinstance(v, ast.Dict):
-                walk_dict(v, section + (k,))
-            elif is_self_attr(v):
-                gmap[section + (k,)] = v.attr
-    gvars = {}
-    for n in walk_local(getter):
-        if isinstance(n, ast.Assign) and isinstance(n.targets[0], ast.Name) and isinstance(n.value, ast.Dict) and n.value.keys:
-            gvars[n.targets[0].id] = n.value
-    top = None
-    for n in walk_local(getter):
-        if isinstance(n, ast.Assign) and isinstance(n.targets[0], ast.Subscript) and isinstance(n.targets[0].slice, ast.Constant) and isinstance(n.targets[0].value, ast.Name):
-            k = n.targets[0].slice.value
-            tgt = n.targets[0].value.id
-            if isinstance(n.value, ast.Name) and n.value.id in gvars:
-                walk_dict(gvars[n.value.id], (k,))
-            elif is_self_attr(n.value):
-                gmap[(k,)] = n.value.attr
-    # setter map: column -> (section, key)
-    smap = {}
-    svars = {}
-    sparam = params(setter)[0]
-    for n in sorted([x for x in walk_local(setter) if isinstance(x, ast.Assign)], key=lambda x: x.lineno):
-        if isinstance(n, ast.Assign) and isinstance(n.value, ast.Call) and isinstance(n.value.func, ast.Attribute) and n.value.func.attr == 'get' and isinstance(n.value.func.value, ast.Name) \
-                and n.value.args and isinstance(n.value.args[0], ast.Constant):
-            base = n.value.func.value.id
-            key = n.value.args[0].value
-            sec = () if base == sparam else svars.get(base)
-            if sec is None:
-                continue
-            if isinstance(n.targets[0], ast.Name):
-                svars[n.targets[0].id] = sec + (key,)
-            elif is_self_attr(n.targets[0]):
-                smap[n.targets[0].attr] = sec + (key,)
+        def walk_dict(d, section):
+            for k, v in dict_items(d):
+                if isinstance(v, ast.Dict):
+                    walk_dict(v, section + (k,))
+                elif is_self_attr(v):
+                    gmap[section + (k,)] = v.attr
+        gvars = {}
+        for n in walk_local(getter):
+            if isinstance(n, ast.Assign) and isinstance(n.targets[0], ast.Name) and isinstance(n.value, ast.Dict) and n.value.keys:
+                gvars[n.targets[0].id] = n.value
+        top = None
+        for n in walk_local(getter):
+            if isinstance(n, ast.Assign) and isinstance(n.targets[0], ast.Subscript) and isinstance(n.targets[0].slice, ast.Constant) and isinstance(n.targets[0].value, ast.Name):
+                k = n.targets[0].slice.value
+                tgt = n.targets[0].value.id
+                if isinstance(n.value, ast.Name) and n.value.id in gvars:
+                    walk_dict(gvars[n.value.id], (k,))
+                elif is_self_attr(n.value):
+                    gmap[(k,)] = n.value.attr
+        # setter map: column -> (section, key)
+        smap = {}
+        svars = {}
+        sparam = params(setter)[0]
+        for n in sorted([x for x in walk_local(setter) if isinstance(x, ast.Assign)], key=lambda x: x.lineno):
+            if isinstance(n, ast.Assign) and isinstance(n.value, ast.Call) and isinstance(n.value.func, ast.Attribute) and n.value.func.attr == 'get' and isinstance(n.value.func.value, ast.Name) \
+                    and n.value.args and isinstance(n.value.args[0], ast.Constant):
+                base = n.value.func.value.id
+                key = n.value.args[0].value
+                sec = () if base == sparam else svars.get(base)
+                if sec is None:
+                    continue
+                if isinstance(n.targets[0], ast.Name):
+                    svars[n.targets[0].id] = sec + (key,)
+                elif is_self_attr(n.targets[0]):
+                    smap[n.targets[0].attr] = sec + (key,)
     ksite = '%s:%s Key.key_wrapping_data' % (PIEOBJ, getter.lineno)
     ctx.count('wrapping_data_columns', len(smap), 30)
     inv_ok = {v: k for k, v in gmap.items()} == smap
